@@ -2151,7 +2151,7 @@ def alias_cases(rng: random.Random, thorough: bool) -> Iterator[Case]:
 class C11(Prop):
     id = "C11"
     title = "Lengths track mutations, pack is repeatable, caller inputs are not modified"
-    lean_modules = ["SpVerif.Props.C11"]
+    lean_modules = ["SpVerif.Props.C11", "SpVerif.Props.C11Heap"]
     exhaustive_note = ("every sequence of length 1..3 (thorough: 1..4) over a pool of 2-7 setter calls per class "
                        "(small arguments, clearing arguments and one refused oversized argument) for every class x "
                        "{CRC, large file} / {from constructor, from decoder} / construction rule; all 512 header "
@@ -2159,16 +2159,37 @@ class C11(Prop):
                        "entity-ID widths (same number) as consecutive EOF / Finished fault locations under every condition "
                        "code; every pool call (NAK / Keep Alive: every pair) with bystander objects for every caller direction "
                        "x large file flag")
-    trusted_base = [
-        "object identity and aliasing are outside a functional model: 'the caller's objects are not modified' is carried by "
-        "the tie (value snapshots of every caller-supplied PduConfig / params dataclass / TLV list / bytes before and after "
-        "constructor and pack(); bystander objects built from the same PduConfig object re-observed after every setter call "
-        "on another object)",
+    _trusted_static = [
+        "object identity: the aliasing clauses ('the caller's objects are not modified', request ID / space-packet view are "
+        "snapshots, factory results are independent) are theorems over the object-graph model Model/Heap.lean (Props/C11Heap.lean: "
+        "frame lemma, write sets of every constructor / factory / decoder, separation for all setter sequences, and the sharing "
+        "that exists stated as it is); that the model allocates, stores and writes where the Python code does is OBSERVED, not "
+        "proved: op heap_alias compares the alias graph the model predicts for every scenario x parameter variant with `is` and "
+        "deep value snapshots on the real objects, for the listed public access paths only (rule: every pair the model separates "
+        "must be two objects, every modified object must be one the model writes; more separation / fewer writes than predicted "
+        "are information). CPython object identity semantics (`is`, copy.copy, copy.deepcopy, dataclass default_factory) are trusted",
+        "further value-level evidence for the same clause: value snapshots of every caller-supplied PduConfig / params dataclass / "
+        "TLV list / bytes before and after constructor and pack(); bystander objects built from the same PduConfig object "
+        "re-observed after every setter call on another object",
         "the filestore-response TLV cache is modelled as a record of what pack() caches (no documented setter mutates a TLV "
         "object); caches inside Metadata option objects are not modelled (== against a deep copy taken before pack() is "
         "checked on the real objects)",
     ]
-    assumptions = ["setter arguments are of the documented types (octet strings, enum members, TLV objects, lists)"]
+    assumptions = ["setter arguments are of the documented types (octet strings, enum members, TLV objects, lists)",
+                   "heap model: caches (_crc16, filestore TLV cache) and objects unreachable when a call returns are not cells; "
+                   "length scalars only record that a setter rewrites them (their values are Model/Mutation.lean's subject); "
+                   "views are taken to depth 8 (deepest modelled chain: 4 attribute steps)"]
+
+    @property
+    def trusted_base(self):
+        """static text plus what the alias-graph tie saw in this run (read when the evidence file is written)"""
+        i = ALIAS_INFO
+        more = sorted(i["more_separated"])
+        dyn = (f"alias-graph tie, this run: {i['lines']} scenario lines; pairs of paths the model predicts SHARED: "
+               f"{i['shared_pairs_predicted']}, of which the implementation shares {i['shared_pairs_observed']}; writes predicted "
+               f"{i['writes_predicted']}, observed {i['writes_observed']} (fewer = accepted); pairs more separated than predicted "
+               f"(accepted, information): {len(more)}" + (": " + "; ".join(more[:12]) if more else ""))
+        return list(self._trusted_static) + [dyn]
 
     def impl_ops(self):
         return OPS
